@@ -25,6 +25,12 @@ pub struct FnSpec {
     pub edges: Vec<(usize, usize, Option<il::Expression>)>,
     pub entry: Option<usize>,
     pub exit: Option<usize>,
+    /// (block, position): before the operation at this position is emitted (position = number of
+    /// operations of the block: at its end) a throw-away nop is appended and removed again with
+    /// `Block::remove_instruction`, so that the block's instruction indices have a gap there -
+    /// the shape dead-code removal and other editing leave behind.  Positions stay dense.
+    #[serde(default)]
+    pub gaps: Vec<(usize, usize)>,
 }
 
 impl FnSpec {
@@ -36,7 +42,15 @@ impl FnSpec {
             if block.index() != bi {
                 return Err(format!("new_block gave index {} for block {}", block.index(), bi));
             }
-            for o in ops {
+            let make_gap = |block: &mut il::Block| -> Result<(), String> {
+                block.nop();
+                let index = block.instructions().last().map(|i| i.index()).ok_or("nop not appended")?;
+                block.remove_instruction(index).map_err(|e| e.to_string())
+            };
+            for (k, o) in ops.iter().enumerate() {
+                for _ in self.gaps.iter().filter(|g| **g == (bi, k)) {
+                    make_gap(block)?;
+                }
                 match &o.op {
                     il::Operation::Assign { dst, src } => block.assign(dst.clone(), src.clone()),
                     il::Operation::Store { index, src } => block.store(index.clone(), src.clone()),
@@ -47,6 +61,9 @@ impl FnSpec {
                 }
                 let last = block.instructions().len() - 1;
                 block.instructions_mut()[last].set_address(o.address);
+            }
+            for _ in self.gaps.iter().filter(|g| **g == (bi, ops.len())) {
+                make_gap(block)?;
             }
         }
         for (h, t, c) in &self.edges {
@@ -82,6 +99,9 @@ impl FnSpec {
                     None => s.push_str(&format!("   {:02} {}\n", k, o.op)),
                 }
             }
+        }
+        if !self.gaps.is_empty() {
+            s.push_str(&format!(" instruction-index gaps before (block, position): {:?}\n", self.gaps));
         }
         for (h, t, c) in &self.edges {
             match c {
@@ -163,6 +183,8 @@ pub struct IlParams {
     pub raw_address_permille: u32,
     /// emit AShr with unrestricted amounts (otherwise amount is masked below the width)
     pub raw_ashr: bool,
+    /// per-mille of functions that get 1-3 instruction-index gaps (`FnSpec::gaps`)
+    pub index_gaps_permille: u32,
 }
 
 impl Default for IlParams {
@@ -187,6 +209,7 @@ impl Default for IlParams {
             raw_divisor_permille: 30,
             raw_address_permille: 30,
             raw_ashr: false,
+            index_gaps_permille: 0,
         }
     }
 }
@@ -577,6 +600,15 @@ pub fn gen_fn(t: &mut Tape, p: &IlParams) -> GenFn {
         }
     }
     let exit = (0..n).rev().find(|b| tails[*b].is_empty()).or(Some(n - 1));
+    let mut gaps = Vec::new();
+    if p.index_gaps_permille > 0 && t.below(1000) + p.index_gaps_permille as usize >= 1000 {
+        for _ in 0..t.range(1, 3) {
+            let b = t.below(n);
+            // mostly in the middle of a block (an instruction follows the gap)
+            let k = if blocks[b].len() >= 2 && t.chance(3, 4) { t.range(1, blocks[b].len() - 1) } else { t.below(blocks[b].len() + 1) };
+            gaps.push((b, k));
+        }
+    }
     GenFn {
         spec: FnSpec {
             address,
@@ -584,6 +616,7 @@ pub fn gen_fn(t: &mut Tape, p: &IlParams) -> GenFn {
             edges,
             entry: Some(0),
             exit,
+            gaps,
         },
         pool,
     }
